@@ -21,9 +21,10 @@ import CpModel.Gen.C02Tables
   * `Dispatcher.__call__`: `if func:` and the `%2F` restoration.
   * `MethodDispatcher.__call__`: `Allow`, verb lookup, HEAD→GET, 405, 404, `_cp_config` of the verb
     method.
-  * `popargs(*names, handler=…)` as the `Disp` it denotes (`popargsDisp`).
-  Not modelled: Python's attribute protocol (the graph is its serialised result), what
-  `request.params` receives from `popargs`, `test_callable_spec` (the probes accept any arguments),
+  * `popargs(*names, handler=…)` as the `Disp` it denotes (`popargsDisp`), including what it puts into
+    `request.params` (`paramsOf`; these reach the handler as keyword arguments).
+  Not modelled: Python's attribute protocol (the graph is its serialised result),
+  `test_callable_spec` (the probes accept any arguments),
   `RoutesDispatcher`, `VirtualHost`, `XMLRPCDispatcher`.
 -/
 namespace CpModel.Dispatch
@@ -63,6 +64,10 @@ structure Disp where
   pop : Nat := 0
   add : List Name := []
   ret : Ret := .fixed none
+  /-- `popargs` argument names: the popped segments are bound to them, in order … -/
+  names : List Name := []
+  /-- … and put into `request.params` (not when a callable handler receives them instead) -/
+  toParams : Bool := false
   deriving DecidableEq, Repr, Inhabited
 
 structure Node where
@@ -165,30 +170,35 @@ inductive Err where
   | outOfFuel
   deriving DecidableEq, Repr, Inhabited
 
-/-- `dispatch(vpath=iternames)`: returns the object and the mutated list. -/
-def runDisp (g : Graph) (d : Disp) (vp : List Name) : Option (Option NodeId × List Name) :=
+/-- `dispatch(vpath=iternames)`: returns the object, the mutated list and what went into
+    `request.params` (`parms[arg] = vpath.pop(0)` for each name while segments last). -/
+def runDisp (g : Graph) (d : Disp) (vp : List Name) :
+    Option (Option NodeId × List Name × List (Name × Name)) :=
   if d.raises then none else
+  let ps := if d.toParams then d.names.zip vp else []
   let vp := d.add ++ vp.drop d.pop
   match d.ret with
-  | .fixed t => some (t, vp)
-  | .self => some (d.self, vp)
+  | .fixed t => some (t, vp, ps)
+  | .self => some (d.self, vp, ps)
   | .popGetattrOrSelf =>
     match vp with
-    | [] => some (d.self, [])
-    | x :: r => some (g.getattr d.self x, r)
+    | [] => some (d.self, [], ps)
+    | x :: r => some (g.getattr d.self x, r, ps)
   | .peekGetattr =>
     match vp with
-    | [] => some (none, [])
-    | x :: _ => some (g.getattr d.self x, vp)
+    | [] => some (none, [], ps)
+    | x :: _ => some (g.getattr d.self x, vp, ps)
 
 /-- `cherrypy.popargs(*names, handler=h)` bound to `self`: pops `len(names)` segments, then
-    * `handler is None`: resolves one more segment on `self` by a plain `getattr` (or returns `self`);
-    * otherwise returns the handler (or, when it is callable, whatever `handler(**parms)` returns):
-      `target`. -/
-def popargsDisp (nargs : Nat) (handler : Option (Option NodeId)) (self : Option NodeId) : Disp :=
+    * `handler is None`: `request.params.update(parms)`, resolves one more segment on `self` by a plain
+      `getattr` (or returns `self`);
+    * a handler that is not callable: `request.params.update(parms)`, returns it;
+    * a callable handler: returns `handler(**parms)` (here: `target`), `request.params` untouched. -/
+def popargsDisp (names : List Name) (handler : Option (Bool × Option NodeId)) (self : Option NodeId) : Disp :=
   match handler with
-  | none => { self := self, pop := nargs, ret := .popGetattrOrSelf }
-  | some target => { self := self, pop := nargs, ret := .fixed target }
+  | none => { self := self, pop := names.length, ret := .popGetattrOrSelf, names := names, toParams := true }
+  | some (isCallable, target) =>
+    { self := self, pop := names.length, ret := .fixed target, names := names, toParams := !isCallable }
 
 /-- The application sections mixed in for `new_segs`: `curpath += '/' + seg; if curpath in app.config`. -/
 def sectionsFor (secs : List (List Char × Conf)) : List Char → List Name → Conf
@@ -201,17 +211,19 @@ structure WalkSt where
   node : Option NodeId
   iter : List Name
   trail : List Entry
+  /-- what `_cp_dispatch` calls have put into `request.params` so far (update order) -/
+  params : List (Name × Name) := []
   deriving Repr, Inhabited
 
 /-- Resolution of the first name of `iternames`: the sub-node and the list after the pops of the
     `if subnode is None: … else: …` statement. -/
 def resolve (tr : Name → Name) (g : Graph) (node : Option NodeId) (name : Name) (rest : List Name) :
-    Except Err (Option NodeId × List Name) :=
+    Except Err (Option NodeId × List Name × List (Name × Name)) :=
   match g.getattr node (tr name) with
-  | some s => .ok (some s, rest)
+  | some s => .ok (some s, rest, [])
   | none =>
     match g.getattr node dispatchName with
-    | none => .ok (none, rest)
+    | none => .ok (none, rest, [])
     | some d =>
       let dn := g.nodeD d
       -- `dispatch and hasattr(dispatch, '__call__') and not getattr(dispatch, 'exposed', False) and pre_len > 1`
@@ -223,8 +235,8 @@ def resolve (tr : Name → Name) (g : Graph) (node : Option NodeId) (name : Name
           let all := name :: rest
           match runDisp g dd all.dropLast with
           | none => .error .dispatchRaised
-          | some (t, vp) => .ok (t, vp ++ (all.getLast?.toList))
-      else .ok (none, rest)
+          | some (t, vp, ps) => .ok (t, vp ++ (all.getLast?.toList), ps)
+      else .ok (none, rest, [])
 
 /-- One iteration of `while iternames:`.  `fp` is `fullpath`. -/
 def walkStep (tr : Name → Name) (app : App) (fp : List Name) (st : WalkSt) (name : Name)
@@ -232,7 +244,7 @@ def walkStep (tr : Name → Name) (app : App) (fp : List Name) (st : WalkSt) (na
   let preLen := rest.length + 1
   match resolve tr app.g st.node name rest with
   | .error e => .error e
-  | .ok (sub, iter1) =>
+  | .ok (sub, iter1, ps) =>
     if iter1.length > preLen then .error .segmentAdded
     else
       -- `elif segleft == pre_len: iternames.pop(0); segleft -= 1`
@@ -248,7 +260,8 @@ def walkStep (tr : Name → Name) (app : App) (fp : List Name) (st : WalkSt) (na
       let curpath : List Char := if existing ≠ 0 then '/' :: joinSlash (fp.take existing) else []
       let newSegs := (fp.drop (L - preLen)).take ((L - segleft) - (L - preLen))
       let nodeconf := cp ++ sectionsFor app.sections curpath newSegs
-      .ok { node := sub, iter := iter2, trail := st.trail ++ [⟨name, sub, nodeconf, segleft⟩] }
+      .ok { node := sub, iter := iter2, trail := st.trail ++ [⟨name, sub, nodeconf, segleft⟩],
+            params := st.params ++ ps }
 
 /-- `while iternames:` — every iteration shortens the list, so `fuel = len(fullpath)` suffices. -/
 def walk (tr : Name → Name) (app : App) (fp : List Name) : Nat → WalkSt → Except Err WalkSt
@@ -276,6 +289,15 @@ def trailOf (tr : Name → Name) (app : App) (segs : List Name) : Except Err (Li
       { node := some app.g.root, iter := fp, trail := [rootEntry app fp.length] } with
   | .error e => .error e
   | .ok st => .ok st.trail
+
+/-- `request.params` as left by the `_cp_dispatch` calls of the walk (update order; they reach the
+    handler as keyword arguments through `LateParamPageHandler.kwargs`). -/
+def paramsOf (tr : Name → Name) (app : App) (segs : List Name) : List (Name × Name) :=
+  let fp := fullpathOf segs
+  match walk tr app fp fp.length
+      { node := some app.g.root, iter := fp, trail := [rootEntry app fp.length] } with
+  | .error _ => []
+  | .ok st => st.params
 
 /-! ### the reverse scan -/
 
